@@ -6,7 +6,7 @@ ROOT = os.path.dirname(os.path.dirname(os.path.abspath(__file__)))
 
 CHECKS = {
  "C01": ("reference-machine monitor (concrete RV32IM execution vs. value claims)",
-         "Every generated program (wild and conforming profiles, plus the directed family of stack slots carried around nested loops) is analysed by the real pipeline and executed on a reference RV32IM machine from random initial states; at each executed instruction every Constant/Address/entry+const register claim and every stack-slot claim (in and out) is compared with the machine state of the current activation. Silence means: held on the executions observed (counts in the evidence), not for all programs.",
+         "Every generated program (wild and conforming profiles incl. sp excursions, CSR statements, top-level frames; every 4th program from a directed family: stack slots carried around nested loops, CSR traffic with stale pointers and calls that rewrite the CSR, ecalls with numbers outside the table, functions that loop back to their own entry) is analysed by the real pipeline and executed on a reference RV32IM machine from random initial states; at each executed instruction every Constant/Address/entry+const register claim and every stack-slot claim (in and out) is compared with the machine state of the current activation. Silence means: held on the executions observed (counts in the evidence), not for all programs.",
          "Trusts the reference machine (written from the ISA spec), the line-based join of instructions to graph nodes, and the generator's coverage of the supported subset."),
  "C02": ("dynamic def-use chain monitor + independent least-fixed-point reference solver",
          "(a) on executions of generated programs (including CSR read/write/set instructions and branches into functions), every register read is traced back to its dynamic definition and every executed node in between must list the register as live; inferred argument/return registers and `Unused value` warnings are checked against what executions read; (b) live_in/live_out of every node are compared with the least solution of the documented equations computed by an independent worklist solver; (c) the constants of those equations - what each ordinary instruction reads and overwrites, and that uret reads every register - are compared with the harness's own decoding.",
@@ -15,52 +15,52 @@ CHECKS = {
          "Static: successor/predecessor sets are inverse, every edge is a fall-through, a jump to the written label or a return merge, exit ecalls have no successors (also ecalls whose exit number is inherited through a jump around another exit, and shared tails). Dynamic: every control transfer executed by the reference machine inside an activation is an edge and no executed instruction is reported unreachable.",
          "Trusts the reference machine and the node join; only executed transfers are required to be edges."),
  "C04": ("conforming-by-construction generator + dynamic convention monitor, oracle = no diagnostics",
-         "Programs that follow the calling convention by construction (random call graphs incl. recursion, nesting, frames, saved-register subsets, ecalls, early returns, error-exit blocks behind the epilogue, functions before or after main, any surface style) and that the dynamic convention monitor confirms on 3 executions must get zero diagnostics.",
+         "Programs that follow the calling convention by construction (random call graphs incl. recursion, nesting, frames, saved-register subsets, ecalls, early returns, error-exit blocks behind the epilogue, functions before or after main, any surface style) and that the dynamic convention monitor confirms on 3 executions must get zero diagnostics. Also: frames of 2-64 KiB built through lui/li, top-level code with a frame of its own, data islands between functions, ecall numbers passed through a register, 25 RARS services.",
          "A generator bug could look like a false positive; the dynamic convention monitor is the second, independent premise check (a failed premise is never a violation)."),
  "C05": ("fault injection into clean programs, oracle = expected diagnostic kind at the planted site",
-         "15 violation classes are planted one at a time into programs that are clean in the same run; a diagnostic of the expected kind must sit on the offending instruction/operand (label for fall-through; entry or related jump for jump-to-function).",
-         "Expected-kind table is part of the design; collateral diagnostics are allowed."),
+         "15 violation classes are planted one at a time into programs that are clean in the same run; a diagnostic of the expected kind must sit on the offending instruction/operand (label for fall-through; entry or related jump for jump-to-function); every 4th case is judged inside an include tree (file and file-relative line must be those of the offending text); a planted read of an unassigned register may have an innocent sibling (assigned, then read, on the other arm) which must not be reported.",
+         "Expected-kind table is part of the design; collateral diagnostics of other kinds are allowed."),
  "C06": ("crash/hang monitor: child processes with address-space limit, watchdog and sweep-limit hook; rustc overflow-check sanitizer build; thorough tier adds coverage-guided fuzzing (cargo-fuzz/libFuzzer, AddressSanitizer build)",
-         "Hostile inputs (random Unicode, token soup over the analyzer's vocabulary, mutated programs, structurally extreme inputs in a scaling series up to 64 KiB) are linted through RVParser::run in worker children in the checked and release builds of the harness, and a sample through `rva lint` in every output mode (dev and release binaries). Panics, deaths by signal (stack overflow, abort), exceeded sweep limits and watchdog expiry are the refuting events; sweep counts of the scaling series are recorded. The thorough tier then fuzzes RVParser::run with libFuzzer (16 forked jobs, 600 s, seed corpus from the generators); every artifact is re-run alone and counts only if the panic / abort / stack overflow / 60 s timeout reproduces.",
+         "Hostile inputs (random Unicode, token soup over the analyzer's vocabulary, mutated programs, structurally extreme inputs in a scaling series up to 64 KiB) are linted through RVParser::run in worker children in the checked and release builds of the harness, and a sample through `rva lint` in every output mode (dev and release binaries); on-disk includes of things that are no regular files (devices that never end, a pipe without writer, directories, dangling and circular symbolic links, over-long and empty names) and file names that are not UTF-8 run under an address-space limit with the peak resident set measured; C08's folding tables and 4x semantic mutants per iteration are linted as well. Panics, deaths by signal (stack overflow, abort), exceeded sweep limits and watchdog expiry are the refuting events; sweep counts of the scaling series are recorded. The thorough tier then fuzzes RVParser::run with libFuzzer (16 forked jobs, 600 s, seed corpus from the generators); every artifact is re-run alone and counts only if the panic / abort / stack overflow / 60 s timeout reproduces.",
          "Polynomial time is restated as bounded sweep counters plus a recorded scaling series; a finite run cannot establish an asymptotic bound."),
  "C15": ("differential monitor (split vs. pasted) + fault injection at the FileReader seam + on-disk include graphs through the CLI",
-         "Programs are cut into include trees (depth 1-3, sub-directories, 40 % with one file included two or three times) and must get the diagnostics of the pasted file, attributed to the right file and file-relative line; the CLI must select base-file items and announce the right count; injected reader faults (not found, IO, internal) must give exactly one error on the directive and leave the rest as with the directive blanked; self-/cyclic includes must terminate with an error for three reader policies in memory and on disk.",
+         "Programs are cut into include trees (depth 1-3, sub-directories, 40 % with one file included two or three times) and must get the diagnostics of the pasted file, attributed to the right file and file-relative line; the CLI must select base-file items and announce the right count; injected reader faults (not found, IO, internal) must give exactly one error on the directive and leave the rest as with the directive blanked; self-/cyclic includes must terminate with an error for three reader policies in memory and on disk; 15 % of the programs use undefined labels (the error must name the same use in every arrangement).",
          "Cuts are at line boundaries only."),
  "C18": ("differential monitor across output channels (library vs. pretty / compact / JSON, colour, file selection)",
-         "For file sets with lints, parse errors and analysis errors, single- and multi-file, the lists (severity, title, file, line, columns) from RVParser::run and from the rva binary in pretty, --compact and --json with/without --no-color and --all-files must be equal per file selection, sorted, JSON of the documented shape, free of escapes under --no-color, with the right other-files count, one severity per kind, and every pretty excerpt must show the right line with the marker under the reported columns.",
+         "For file sets with lints, parse errors and analysis errors, single- and multi-file, the lists (severity, title, file, line, columns) from RVParser::run and from the rva binary in pretty, --compact and --json with/without --no-color and --all-files must be equal per file selection, sorted, JSON of the documented shape, free of escapes under --no-color, with the right other-files count, one severity per kind, and every pretty excerpt must show the right line with the marker under the reported columns (the shown text is looked up in the source line; file kinds include odd leading white space, tabs and CR/LF).",
          "Only what a format prints is compared."),
  "C19": ("round-trip and injectivity monitor over the serde dump (value space enumerated, graphs sampled)",
          "Every AvailableValue / MemoryLocation variant with boundary payloads, register sets and maps are dumped (serde_yaml), reloaded and compared, and distinct values must have distinct dumps; whole-graph dumps of generated programs must reload and re-dump identically, fact-different one-instruction mutants must have different dumps; a decoder rebuilds every field (edges, liveness, facts, labels, per-node (entry, exit) pairs of its functions) from the dump and compares it with the analysis; also through `rva lint --yaml`; checked and release builds.",
-         "Sets emitted as lists are compared as sets."),
+         "Sets emitted as lists are compared as sets (the order of a node's function list in the dump follows hash order and is not part of the claim)."),
  "C07": ("mutation workload + coverage/containment oracle over parser executions",
-         "One line of a one-statement-per-line file is replaced by a malformed one (17 defect kinds incl. directives without operands and statements cut after any token; first/middle/last/two consecutive lines), plus whole-file CR/LF endings and a final line truncated after each token with/without newline. Every non-blank line must yield a node starting on it or a parse error located on it, and all other lines must parse exactly as when the bad line is blank.",
+         "One line of a one-statement-per-line file is replaced by a malformed one (21 defect kinds incl. directives without operands, statements cut after any token, stray tokens in data lists, label definitions as operands, dots that start no directive, macros that are never closed; first/middle/last/two consecutive lines), plus whole-file CR/LF endings and a final line truncated after each token with/without newline. Every non-blank line must yield a node starting on it or a parse error located on it, a line that certainly contains a non-token must carry an error, and all other lines must parse exactly as when the bad line is blank.",
          "Trusts the harness's classification of which lines carry content."),
  "C09": ("reference-model monitor for positions over lexer/parser/diagnostic executions",
-         "Every token of the real lexer, every parsed node, every parse error and diagnostic of programs printed in 9 layouts (header, first line, leading blank lines, styled, two statements per line, included files, no final newline, CR/LF and mixed line endings) is checked against an independent line/column/raw model: mutually consistent, inside the file, on one line, and the slice is exactly the token / statement / register named.",
+         "Every token of the real lexer, every parsed node, every parse error and diagnostic of programs printed in 9 layouts (header, first line, leading blank lines, styled, two statements per line, included files, no final newline, CR/LF and mixed line endings) plus directed files whose first statement starts at offset 0 is checked against an independent line/column/raw model: mutually consistent, inside the file, on one line, and the slice is exactly the token / statement / register named.",
          "Inclusive-end, char-indexed convention taken from the repository's golden JSON files."),
  "C11": ("reference-model monitor at the quiescent point after gen_full_cfg",
-         "Call targets computed from the harness AST and reachable sets computed by BFS over the observed successor edges are compared with the function map, node lists, owner lists and exits of the finished graph for hand-written shapes (aliases, interleaved bodies, shared tails, fall-through entry, recursion, dead callers, multiple returns, interrupt handlers) and generated programs; sharing must be reported exactly when it exists.",
+         "Call targets computed from the harness AST and reachable sets computed by BFS over the observed successor edges are compared with the function map, node lists, owner lists and exits of the finished graph for hand-written shapes (aliases, interleaved bodies, shared tails, fall-through entry, recursion, dead callers, multiple returns, interrupt handlers, a function in the data segment, a return through a temporary) and generated programs; the names of a function must be exactly the labels on its first instruction (no data labels); sharing must be reported exactly when it exists.",
          "Programs whose analysis fails are excluded (C16)."),
  "C16": ("failure-shape workload + oracle on the reported error (kind, file, range, text) and on default CLI visibility",
-         "Programs that parse but may be impossible to analyse (undefined / duplicate labels, labels without instruction, functions without return, returns outside functions, calls into data, label-only files, the same split into included files) must produce a specific error located on a real label in a user file and visible in the default CLI output, never Unexpected/Assertion errors; a reference model of label hygiene (every definition and use in the program text) demands a label error whenever a label is duplicated or undefined.",
+         "Programs that parse but may be impossible to analyse (undefined / duplicate labels, labels without instruction, functions without return, returns outside functions, calls into data, label-only files, the same split into included files) must produce a specific error located on a real label in a user file and visible in the default CLI output, never Unexpected/Assertion errors; a reference model of label hygiene (every definition and use in the program text, incl. loads / stores that name a label) demands a label error whenever a label is duplicated or undefined, and an error whenever a jump, branch or call names a label that no instruction follows.",
          "When several labels are undefined any one may be the location."),
  "C08": ("reference-machine differential monitor + rustc overflow-check sanitizer build",
-         "Every mnemonic x operand form is parsed by the real parser and the decoded nodes are executed on the reference machine against the official expansion from boundary and random states; and, as table 4, the same boundary grid is run through the whole analysis (`li; li; op` with register, zero-register and immediate operands): every constant the analysis claims must be the RV32IM value; MathOp::operate is compared with a reference ALU on a complete 24x24 boundary grid per operator plus random pairs, in the checked (overflow-checks) and release builds.",
+         "Every mnemonic x operand form (each also at the end of a file, in front of a comment and behind a label) is parsed by the real parser and the decoded nodes are executed on the reference machine against the official expansion from boundary and random states; and, as table 4, the same boundary grid is run through the whole analysis (`li; li; op` with register, zero-register and immediate operands): every constant the analysis claims must be the RV32IM value; MathOp::operate is compared with a reference ALU on a complete 24x24 boundary grid per operator plus random pairs, in the checked (overflow-checks) and release builds.",
          "Trusts the harness's reference ALU/expansion tables (from the ISA and assembler manuals)."),
  "C10": ("repeated-execution monitor over hash-order schedules (fresh threads and separate processes)",
-         "The same file sets are linted repeatedly in fresh threads (RVParser::run and the staged route) and as separate rva processes in every output mode; all results must be identical sequences and contain no two equal items (also for a directed family: a never-assigned register first read behind the join of several paths). The evidence reports how many distinct hash orders were actually seen.",
+         "The same file sets are linted repeatedly in fresh threads (RVParser::run and the staged route) and as separate rva processes in every output mode; all results must be identical sequences and contain no two equal items (also for directed families: a never-assigned register first read behind the join of several paths; several plain jumps into one function; code shared by two functions). The evidence reports how many distinct hash orders were actually seen.",
          "Only the hash orders that occurred are covered."),
  "C12": ("extra-pass-run history monitor + sweep-counter hook",
-         "Generated programs, trap handlers, shared tails, loop-carried stack slots, exit ecalls with inherited numbers and semantic mutants (valid programs with retargeted jumps, stack-pointer games, reserved label names): after gen_full_cfg a canonical snapshot of all facts is taken through public getters; a fixed-point loop that exceeds the sweep limit is reported as non-termination; random sequences of extra AvailableValue/EcallTermination/Liveness runs must leave snapshot and diagnostics unchanged; the same parsed program analysed twice must give the same facts; the verif-hooks sweep counters must stay under a linear bound (a sweep limit turns non-termination into an observable event).",
-         "Reproducibility is compared only when no function has two returns."),
+         "Generated programs, trap handlers, shared tails, loop-carried stack slots, exit ecalls with inherited numbers, mazes of ecalls whose exit numbers only become known after earlier exits are cut (up to 6 levels), files included twice, and semantic mutants (valid programs with retargeted jumps, stack-pointer games, reserved label names): after gen_full_cfg a canonical snapshot of all facts is taken through public getters; a fixed-point loop that exceeds the sweep limit is reported as non-termination; random sequences of extra AvailableValue/EcallTermination/Liveness runs must leave snapshot and diagnostics unchanged; the same parsed program analysed twice must give the same facts; the verif-hooks sweep counters must stay under a linear bound (a sweep limit turns non-termination into an observable event).",
+         "Extra pass runs are applied in random order and number; only histories of up to 6 extra runs are explored."),
  "C13": ("metamorphic monitor: surface rewrites of the same AST",
-         "Each program (generated, or the boundary-literals family) is printed in the base-ISA style and under 18 single-feature rewrites plus random compositions; the multisets of (kind, instruction index, register concerned) must be equal.",
+         "Each program (generated, or the boundary-literals family) is printed in the base-ISA style and under 18 single-feature rewrites plus random compositions; the multisets of (kind, instruction index, register concerned) must be equal. Also: `li` against its lui/addi expansion (diagnostics identified by logical statement) and layouts of data lists that continue over several lines (comments and blank lines in between).",
          "Diagnostics are identified by instruction index and register, not by columns (positions are C09's subject)."),
  "C14": ("metamorphic monitor: label renaming and register permutation",
          "Labels are renamed injectively (sometimes to names that look like the analyzer's internal ones) and t0-t6 / s0-s11 permuted consistently (hand-written shapes incl. trap handlers and refused programs get every rotation of each class); the renamed program must get exactly the original diagnostics (kind, place, register) with registers mapped through the permutation, and the same wording with the names mapped.",
          "Argument registers are not permuted."),
  "C17": ("reference-model monitor over front-end executions + rustc overflow-check sanitizer build",
-         "Every boundary magnitude in decimal/hex/binary with both signs, letter cases and zero padding, character literals incl. \\u escapes, malformed spellings (numbers and character literals) and random 32-bit values are pushed through the real lexer+parser in 8 operand contexts; value, acceptance, error location and panics are compared with a denotation model, in checked and release builds.",
+         "Every boundary magnitude in decimal/hex/binary with both signs, letter cases and zero padding, character literals incl. \\u escapes, malformed spellings (numbers and character literals) and random 32-bit values are pushed through the real lexer+parser in 10 operand contexts (incl. jalr and store offsets; lui operands judged on the 32-bit reading and the 20-bit field); value, acceptance, error location and panics are compared with a denotation model, in checked and release builds.",
          "Trusts the harness's denotation model; boundary sub-space enumerated completely, the rest sampled."),
 }
 
